@@ -40,7 +40,7 @@ fn main() {
     "profile:true is set on every run (reference and strategies alike) to read the pruning counters; that profile does not change results is C20's property".into(),
     "cursor completeness at exact score ties is C11's property: page-2 comparison ignores documents tied with the page boundary".into(),
   ];
-  let n = ctx.n(60, 1000);
+  let n = ctx.n(60, 10_000);
   let quick = ctx.quick();
   ctx.run_cases("idx", n, |rng: &mut Rng, l: &mut Local, scratch| {
     let mut vocab: Vec<String> = gen::WORDS.iter().map(|s| s.to_string()).collect();
